@@ -135,7 +135,7 @@ impl Prop for C15Prop {
         let mut case = Case::new("C15", seed, specs);
         {
             let mut hr = Rng::new(seed, "config.huge");
-            if hr.chance(1, 2500) {
+            if hr.chance(1, 1200) {
                 // a graph of thousands of edges (strategy thresholds), then a short tail
                 // half of the large histories use weights whose sums overflow (1e308 ...): the sum of a group of
                 // parallel edges is then +inf, and must stay +inf
@@ -211,7 +211,7 @@ impl Prop for C15Prop {
         let _ = (results, cx);
     }
     fn rule(&self) -> String {
-        "lifecycle histories over all 96 specs in which get_subgraph / reverse / set_all_edge_weights / to_single_edges are applied at random points (source = a graph produced by duplicate policies, re-added nodes, restarts) and the history continues on the result; each derived op: outcome (WrongMethod for the wrong kind), result vs the model's definition (nodes in original order with attributes, exact edge multiset, summed weights at 1e-9), result specs, source graph unchanged, reverse twice = identity, C02/C03 oracles on the result, C01 oracles on the continued history; 2 hash keyings. distinct_nontrivial = distinct (specs, history) with >= 1 derived operation executed; one case in 2500 loads 2 100 - 12 500 edges (one to three batches or the constructor, same edge values re-submitted on multi-edge graphs) into 45-180 nodes and continues with a short tail (strategy thresholds); the large histories come in variants: dense (45-180 nodes), 2 048 - 2 600 nodes declared in one call, a hub with 1 100 - 1 600 neighbours; in half of them a load of 260-420 edges into ANOTHER graph is rejected part-way on the same thread first (fault, then recovery, at scale); histories with 10 001 - 13 000 nodes and with groups of more than 1 024 parallel edges on one pair; one case in 3 000 repeats get_subgraph with alternating selections after exactly 2^8, 2^15, 2^16 (+-1) further calls on the thread (counter wrap-around); half of the large histories use finite weights whose sums overflow (1e308 ...) and two thirds of those on multi-edge graphs end with to_single_edges: the weight of a collapsed group of more than 1 024 parallel edges must be +inf (searches are not run on graphs with weights of that magnitude)".into()
+        "lifecycle histories over all 96 specs in which get_subgraph / reverse / set_all_edge_weights / to_single_edges are applied at random points (source = a graph produced by duplicate policies, re-added nodes, restarts) and the history continues on the result; each derived op: outcome (WrongMethod for the wrong kind), result vs the model's definition (nodes in original order with attributes, exact edge multiset, summed weights at 1e-9), result specs, source graph unchanged, reverse twice = identity, C02/C03 oracles on the result, C01 oracles on the continued history; 2 hash keyings. distinct_nontrivial = distinct (specs, history) with >= 1 derived operation executed; one case in 1200 loads 2 100 - 12 500 edges (one to three batches or the constructor, same edge values re-submitted on multi-edge graphs) into 45-180 nodes and continues with a short tail (strategy thresholds); the large histories come in variants: dense (45-180 nodes), 2 048 - 2 600 nodes declared in one call, a hub with 1 100 - 1 600 neighbours; in half of them a load of 260-420 edges into ANOTHER graph is rejected part-way on the same thread first (fault, then recovery, at scale); histories with 10 001 - 13 000 nodes and with groups of more than 1 024 parallel edges on one pair; one case in 3 000 repeats get_subgraph with alternating selections after exactly 2^8, 2^15, 2^16 (+-1) further calls on the thread (counter wrap-around); half of the large histories use finite weights whose sums overflow (1e308 ...) and two thirds of those on multi-edge graphs end with to_single_edges: the weight of a collapsed group of more than 1 024 parallel edges must be +inf (searches are not run on graphs with weights of that magnitude)".into()
     }
     fn assumptions(&self) -> Vec<String> {
         vec!["edge attributes of to_single_edges results are not specified and not compared".into(), "summed weights compared at 1e-9 relative (then adopted by the model)".into()]
